@@ -1,6 +1,7 @@
 //! ge-dst — deterministic simulation with fault injection for glass-easel.
 //! See /verif/DESIGN.md. Exit codes: 0 held, 1 violation, 2 harness error.
 
+mod c13;
 mod c14;
 mod c20;
 mod common;
@@ -82,6 +83,7 @@ fn main() {
         "C06" => rt::check(&args, gen::Prop::C06),
         "C07" => rt::check(&args, gen::Prop::C07),
         "C11" => rt::check(&args, gen::Prop::C11),
+        "C13" => c13::check(&args),
         "C14" => c14::check(&args),
         "diag" => {
             // print the diagnostics of a source given on stdin (debugging aid)
@@ -125,6 +127,7 @@ fn main() {
                 "group" => c20::replay(&v, p, args.quiet),
                 "runtime" => rt::replay(&v, p, args.quiet),
                 "lockstep" => c14::replay(&v, p, args.quiet),
+                "pairs" | "links" => c13::replay(&v, p, args.quiet),
                 x => harness_error(&format!("unknown engine in replay file: {}", x)),
             }
         }
